@@ -18,7 +18,7 @@ WORK = os.path.join(VERIF, 'work')
 PY = '/venv/bin/python'
 GUARD = 'BRIDGE_ENV_VERIF'
 # the generated files that belong to the development (harness/gen.py translators and harness/graphs.py graphs)
-GEN_FILES = {'ScoreConsts.v', 'Enums.v', 'Regexes.v', 'Skeleton.v', 'Schemas.v', 'JsonFraming.v', 'ScoreFns.v', 'AuctionFns.v', 'PlayFns.v', 'PbnFns.v', 'JsonFns.v', 'WireFns.v', 'ScoreGraph.v', 'NotationGraph.v'}
+GEN_FILES = {'ScoreConsts.v', 'Enums.v', 'Regexes.v', 'Skeleton.v', 'Schemas.v', 'JsonFraming.v', 'ScoreFns.v', 'AuctionFns.v', 'PlayFns.v', 'PbnFns.v', 'JsonFns.v', 'WireFns.v', 'TextFns.v', 'HandsFns.v', 'ScoreGraph.v', 'NotationGraph.v'}
 
 
 def impl_env():
